@@ -61,9 +61,13 @@ Fetch == /\ Is("fetch")
 
 \* with a lock the source is never advanced by two consumers at once; a closed source
 \* is not advanced at all
+\* ... and a child advances the source only when it has nothing buffered: it has delivered every
+\* item fetched so far (no reading ahead -- a child that found its buffer filled while it waited for the
+\* lock delivers from the buffer)
 Enter == /\ Is("enter")
          /\ Cfg.lock => inSrc = {}
          /\ srcClosed = 0 /\ ~fin[E.c]
+         /\ recv[E.c] = fetched
          /\ inSrc' = inSrc \cup {E.c}
          /\ UNCHANGED <<recv, fetched, srcClosed, fin, lastF>>
          /\ Consume
